@@ -3,6 +3,7 @@
 From Coq Require Import List Bool.
 From Coq.Strings Require Import String.
 Open Scope string_scope.
+From GV Require Skel.Emit.
 From GV Require Import Base.Bytes Base.Tok Skel.Compose.
 Import ListNotations.
 
@@ -29,7 +30,22 @@ Example C03_ghost_table_examples :
   check_view Mso (lex (lit "<!--[if mso | IE]><table><tr><td><![endif]--><div>x</div><!--[if mso | IE]></td></tr><![endif]-->")) = false.
 Proof. repeat split; vm_compute; reflexivity. Qed.
 
+(* ---- unconditional for the modelled core of the grammar ----------------------------------
+   Skel/Emit.v is a hand port of what body / section (plain, full-width) / wrapper / group / column
+   and the leaves text, divider, spacer, image, button write (attributes and text erased; tied to
+   the code by token-for-token comparison with erased real outputs on every run).  For EVERY document
+   of that grammar - any number and nesting of blocks, sections, groups, columns and leaves, every
+   hand-over of the Outlook wrapper table between consecutive blocks - the Outlook reading is
+   well-formed.  No premise about observed outputs. *)
+Theorem C03_core_grammar_wellformed : forall b : Skel.Emit.body, ok_frag Mso (Skel.Emit.emit_body b).
+Proof. exact (Skel.Emit.emit_body_ok Mso). Qed.
+
+(* how Outlook-only markup is cut into conditional comments is invisible to the reading: the tie compares streams modulo this *)
+Theorem C03_conditional_segmentation_invisible : forall ts, ok_frag Mso ts -> ok_frag Mso (Skel.Emit.squash ts).
+Proof. exact (Skel.Emit.squash_ok Mso). Qed.
+
 Print Assumptions C03_checker_sound.
 Print Assumptions C03_body_wellformed.
 Print Assumptions C03_merging_seams_keeps_outlook_view.
 Print Assumptions C03_fill_hole.
+Print Assumptions C03_core_grammar_wellformed.
